@@ -11,6 +11,7 @@ import (
 	"time"
 
 	"github.com/la5nta/wl2k-go/fbb"
+	"github.com/la5nta/wl2k-go/mailbox"
 
 	"verifharness/internal/rec"
 )
@@ -41,6 +42,7 @@ type MsgSpec struct {
 	Att      int    `json:"att"`      // number of attachments
 	NonASCII bool   `json:"nonascii"` // subject / file names contain Latin-1 characters
 	Policy   string `json:"policy"`   // how the receiving handler answers: "+", "-", "=" or "dedup"
+	Sole     bool   `json:"sole"`     // the peer is the only recipient (needed for P2P routing of a directory mailbox)
 }
 
 var precMarker = []string{"//WL2K Z/ ", "//WL2K O/ ", "//WL2K P/ ", ""}
@@ -73,7 +75,7 @@ func BuildMessage(spec MsgSpec, from, to string, seed int64) *fbb.Message {
 	m.Header.Set("Mid", spec.MID)
 	m.SetDate(fixedDate.Add(time.Duration(rng.Intn(500000)) * time.Minute))
 	m.AddTo(to)
-	if rng.Intn(3) == 0 {
+	if rng.Intn(3) == 0 && !spec.Sole {
 		m.AddCc("someone@example.com")
 	}
 	subj := precMarker[spec.Prec] + "Subject " + spec.MID
@@ -137,6 +139,11 @@ type Station struct {
 	nStore      int
 	Batched     bool
 	NilAnswers  bool
+
+	// Dir, when set, makes the station a recording wrapper around a real mailbox.DirHandler: all persistent
+	// state (outbox, sent, inbox, duplicate suppression) is the directory's.
+	Dir *mailbox.DirHandler
+	tmp string
 }
 
 func NewStation(name, call string, r *Recorder) *Station {
@@ -152,6 +159,14 @@ func (s *Station) Queue(m *fbb.Message) {
 	}
 	s.queue = append(s.queue, m.MID())
 	s.raw[m.MID()] = b
+	if s.Dir != nil {
+		if err := s.Dir.Prepare(); err != nil {
+			panic(err)
+		}
+		if err := s.Dir.AddOut(m); err != nil {
+			panic(err)
+		}
+	}
 }
 
 func (s *Station) Raw(mid string) []byte { return s.raw[mid] }
@@ -168,10 +183,25 @@ func (s *Station) Prepare() error {
 	s.nStore = 0
 	s.mu.Unlock()
 	s.rec.Add(rec.Event{"op": "Prepare", "s": s.Name})
+	if s.Dir != nil {
+		return s.Dir.Prepare()
+	}
 	return nil
 }
 
 func (s *Station) GetOutbound(fw ...fbb.Address) []*fbb.Message {
+	if s.Dir != nil {
+		out := s.Dir.GetOutbound(fw...)
+		mids, fws := []string{}, []string{}
+		for _, m := range out {
+			mids = append(mids, m.MID())
+		}
+		for _, a := range fw {
+			fws = append(fws, a.String())
+		}
+		s.rec.Add(rec.Event{"op": "Offer", "s": s.Name, "ms": mids, "fw": fws})
+		return out
+	}
 	s.mu.Lock()
 	var out []*fbb.Message
 	mids := []string{}
@@ -200,6 +230,9 @@ func (s *Station) SetSent(mid string, rejected bool) {
 	s.sent[mid] = true
 	s.mu.Unlock()
 	s.rec.Add(rec.Event{"op": "SetSent", "s": s.Name, "m": mid, "rej": rejected})
+	if s.Dir != nil {
+		s.Dir.SetSent(mid, rejected)
+	}
 }
 
 func (s *Station) SetDeferred(mid string) {
@@ -209,9 +242,15 @@ func (s *Station) SetDeferred(mid string) {
 	}
 	s.mu.Unlock()
 	s.rec.Add(rec.Event{"op": "SetDeferred", "s": s.Name, "m": mid})
+	if s.Dir != nil {
+		s.Dir.SetDeferred(mid)
+	}
 }
 
 func (s *Station) answer(p fbb.Proposal) fbb.ProposalAnswer {
+	if s.Dir != nil {
+		return s.Dir.GetInboundAnswer(p)
+	}
 	s.mu.Lock()
 	defer s.mu.Unlock()
 	switch s.pol[p.MID()] {
@@ -247,6 +286,12 @@ func (s *Station) ProcessInbound(msgs ...*fbb.Message) error {
 		if fail {
 			s.rec.Add(rec.Event{"op": "Store", "s": s.Name, "m": m.MID(), "intact": intact, "err": true})
 			return errors.New("storage failure (injected)")
+		}
+		if s.Dir != nil {
+			if err := s.Dir.ProcessInbound(m); err != nil {
+				s.rec.Add(rec.Event{"op": "Store", "s": s.Name, "m": m.MID(), "intact": intact, "err": true})
+				return err
+			}
 		}
 		s.mu.Lock()
 		s.inbox[m.MID()]++
